@@ -92,7 +92,10 @@ class SimFile(io.BufferedIOBase):
         if size is None:
             size = self._real.tell()
         if self._live():
-            self._disk._hook("TRUNC", self._rel, {"size": size, "hid": self._hid})
+            try:
+                self._disk._hook("TRUNC", self._rel, {"size": size, "hid": self._hid})
+            except InjectIOError as e:
+                raise OSError(e.err, os.strerror(e.err)) from None
             self._disk.journal.append(("TRUNC", self._rel, size, self._hid))
         return self._real.truncate(size)
 
@@ -136,8 +139,21 @@ class SimFile(io.BufferedIOBase):
             self._real.close()
 
     def __del__(self):
+        # garbage collection of a handle nobody closed: no hook point (a crash
+        # or fault is never injected from a finaliser), just the marker
+        if self._done:
+            return
+        self._done = True
         try:
-            self.close()
+            d = self._disk
+            if self._live():
+                d.live.pop(self._hid, None)
+                d.journal.append(("CLOSE", self._rel, self._hid))
+            try:
+                d.fdmap.pop(self._real.fileno(), None)
+            except Exception:
+                pass
+            self._real.close()
         except BaseException:
             pass
 
@@ -406,7 +422,10 @@ class SimDisk:
         rel = self._rel(path) if self._on() else None
         if rel is None:
             return _REAL["os.truncate"](path, length)
-        self._hook("TRUNC", rel, {"size": length})
+        try:
+            self._hook("TRUNC", rel, {"size": length})
+        except InjectIOError as e:
+            raise OSError(e.err, os.strerror(e.err)) from None
         out = _REAL["os.truncate"](path, length)
         self.journal.append(("TRUNC", rel, length, None))
         return out
@@ -415,7 +434,10 @@ class SimDisk:
         ent = self.fdmap.get(fd) if self._on() else None
         if ent is None:
             return _REAL["os.ftruncate"](fd, length)
-        self._hook("TRUNC", ent[0], {"size": length})
+        try:
+            self._hook("TRUNC", ent[0], {"size": length})
+        except InjectIOError as e:
+            raise OSError(e.err, os.strerror(e.err)) from None
         out = _REAL["os.ftruncate"](fd, length)
         self.journal.append(("TRUNC", ent[0], length, None))
         return out
